@@ -1,16 +1,17 @@
 #!/usr/bin/env python3
-"""Regenerates MANIFEST.json from the table below (run after adding a property)."""
+"""Regenerates MANIFEST.json from manifest.d/Cxx.json ({"text":..., "note":...}) (run after adding a property).
+Properties not claimed go into manifest.d/NOT_APPLICABLE.json ({"Cxx": "reason"})."""
 import json, os
 ROOT = os.path.normpath(os.path.join(os.path.dirname(os.path.abspath(__file__)), ".."))
 BASE = "for m in $(cat /w/out/gomods.txt); do MF=$(cd /repo/$m && . /w/out/goenv.sh && gomodflag); (cd /repo/$m && go test $MF -json -vet=off -count=1 -timeout 25m ./...); done"
 TECH = "machine-checked proof in Rocq (Coq 8.16.1) over an executable model + extraction-based correspondence check against the Go code"
-T = {
- "C12": ("Coq theorems (closed under the global context) over a 64-bit-exact model of the rendezvous selector (constants regenerated from the Go source on every run): Log2Fixed bound, positive scores, GetShard = argmax over the set of (key hash, weight), hence order independence, removal/addition disruption and IIA; FindMissing partition/union theorems for the composite. Tied to the code by running the extracted model and monitors against NewRendezvousShardSelector/NewShardingBlobAccess.",
-         "SHA-256 of shard keys computed by the harness; errgroup error choice abstracted; Set order canonicalised; extraction/driver/harness trusted"),
- "C18": ("Coq theorems (closed under the global context) about a Gallina model of the 'any' authorizer loop and the authorizing decorator, for all authorizer trees, name lists and operations; tied to the code by running extracted model + monitor against the real NewAnyAuthorizer/NewAuthorizingBlobAccess on generated trees and operations.",
-         "leaf authorizers answer per instance name (oracle tables); Go map order abstracted; extraction + driver + harness trusted; see DESIGN.md section 7"),
-}
+T = {}
+for f in sorted(__import__("glob").glob(os.path.join(ROOT, "manifest.d", "C*.json"))):
+    d = json.load(open(f))
+    T[os.path.basename(f)[:-5]] = (d["text"], d["note"])
 NA = {}
+if os.path.exists(os.path.join(ROOT, "manifest.d", "NOT_APPLICABLE.json")):
+    NA = json.load(open(os.path.join(ROOT, "manifest.d", "NOT_APPLICABLE.json")))
 def main():
     props = sorted(T)
     m = dict(version=1, setup_cmd="bin/setup",
